@@ -1116,6 +1116,18 @@ Theorem C03_pacman_call_clauses : forall f cf k m c r m',
 Proof. exact pacman_call_clauses. Qed.
 Print Assumptions C03_pacman_call_clauses.
 
+(* ... and for EVERY RECORD of a recorded run: any manager kind, any call list, from any manager state:
+   if the run ends without a flagged exception, each recorded (grid, step_count) relates to the one before it
+   (the initial state for the first) by `rec_ok`: unchanged, or step_count = 0 (a reset), or clauses 2611 and
+   2612 hold (a step).  These are the checker's clauses on the model's own records before the wire encoding. *)
+Theorem C03_pacman_records_chain : forall f cf k cs m,
+  pac_not_baddie cf ->
+  ps_bad (m_sim (snd (prun_snap (pacman_sim_gen f cf) k m cs))) = false ->
+  chain (rec_ok cf) (ps_grid (m_sim m), ps_count (m_sim m))
+        (map snd (fst (prun_snap (pacman_sim_gen f cf) k m cs))).
+Proof. intros f cf k cs m. apply prun_snap_chain. Qed.
+Print Assumptions C03_pacman_records_chain.
+
 (* the hypothesis holds of the packaged board's configuration *)
 Example C03_pacman_not_baddie_nonvacuous : pac_not_baddie px_cf.
 Proof.
